@@ -59,6 +59,12 @@ def check(ctx, prog, stats, samples):
         stats["distinct"].add(hash(json.dumps([prog["defs"], call, prog["utab"]])))
         if r["impl"] != r["model"]:
             ctx.violation(f"implementation {r['impl_raw']} != model {r['model']}", case, kind="correspondence")
+            # the tie is broken for this call: ask the documented rule directly whether the implementation is also wrong
+            if not any(d.get("body") in ("nextv",) for d in prog["defs"]) and not call.get("kwvals"):
+                vs0 = [dec_val(e, w) for e in call["vals"]]
+                exp0 = D.py_spec_dep(w, b, prog["defs"], vs0)
+                if exp0 is not None and exp0 != r["impl"] and not (exp0 == ["ambig"] and D.kf01_shape(w, b, prog["defs"], vs0, r["impl"])):
+                    ctx.violation(f"implementation {r['impl']} deviates from the documented rule {exp0}", case)
             continue
         # oracle 1: every entered method received instances of its annotations (C01 at the value level)
         for mid, rec in zip(r["entered"], r["received"]):
